@@ -14,8 +14,12 @@
 #include <sc.h>
 #include <sc_sort.h>
 #include <simmpi.h>
+#include <signal.h>
+#include <unistd.h>
 
 #define MAXP 64
+#define RUN_SECONDS 20          /* wall-clock limit per run: a rank spinning without MPI calls is invisible to simmpi */
+static void on_alarm (int sig) { static const char m[] = "\nHANG\n"; (void) sig; if (write (1, m, sizeof m - 1) < 0) { } _exit (3); }
 typedef struct { int size, cmpid; unsigned dseed, keyrange; int counts[MAXP]; unsigned char **out; int *viol; } arg_t;
 
 static unsigned mix (unsigned a, unsigned b, unsigned c)
@@ -122,6 +126,7 @@ int main (void)
   int run = 0;
   sc_init (sc_MPI_COMM_NULL, 0, 0, NULL, SC_LP_SILENT);
   sc_set_abort_handler (simmpi_abort_handler);
+  signal (SIGALRM, on_alarm);
   snprintf (tpath, sizeof tpath, "%s/trace.%d.jsonl", getenv ("VERIF_SCRATCH") ? getenv ("VERIF_SCRATCH") : "/var/tmp", (int) getpid ());
   while (fgets (line, sizeof line, stdin)) {
     int P, adv, pos = 0, k; unsigned long seed; arg_t a;
@@ -136,7 +141,10 @@ int main (void)
     simmpi_opts o; simmpi_report rep;
     simmpi_opts_default (&o);
     o.nranks = P; o.seed = seed; o.adversary = adv; o.trace_path = tpath;
+    fflush (stdout);
+    alarm (RUN_SECONDS);
     int rc = simmpi_run (&o, rank_main, &a, &rep);
+    alarm (0);
     printf ("RUN %d rc=%d steps=%ld\n", run, rc, rep.steps);
     if (rc) { char *t = rep.text; for (char *p = t; *p; ++p) if (*p == '\n') *p = '~'; printf ("REPORT %s\n", t); }
     for (int r = 0; r < P; ++r) {
@@ -156,6 +164,7 @@ int main (void)
     if (f) { static char buf[65536]; size_t n; while ((n = fread (buf, 1, sizeof buf, f)) > 0) fwrite (buf, 1, n, stdout); fclose (f); }
     printf ("TRACE-END\n");
     printf ("END %d mem=%d\n", run, sc_memory_status (-1) - mem0);
+    fflush (stdout);
     simmpi_report_free (&rep);
     free (a.out); free (a.viol); g_viol = NULL;
     ++run;
